@@ -33,6 +33,13 @@ func runC17(env *Env) {
 			rep.Violate("C17-ownership", "source census", fmt.Sprintf("package-level map %s is touched by %s (write=%v) without the lock it needs", a.Var, a.Func, a.Write))
 		}
 	}
+	captured := capturedCensus(c)
+	for _, a := range captured {
+		if !a.OK {
+			rep.Violate("C17-ownership", "source census", fmt.Sprintf("captured local %s is shared with function literals, modified after they exist, and accessed in %s (write=%v) without a lock", a.Var, a.Context, a.Write))
+		}
+	}
+	rep.Notes = append(rep.Notes, fmt.Sprintf("captured-locals census: %d accesses of shared, late-modified locals", len(captured)))
 	rep.Notes = append(rep.Notes, fmt.Sprintf("ownership census: %d fields of goroutine-owning types, %d accesses", len(fields), len(accs)))
 
 	raceBin, _ := filepath.Abs(filepath.Join(filepath.Dir(env.Out), "bpmnverif_race"))
